@@ -1043,6 +1043,43 @@ func (p *pkg) timing(sb *strings.Builder) {
 	fmt.Fprintf(sb, "/-- randTime.duration(min) with the random draw `x` (rt.r.Int63()) made explicit -/\n")
 	fmt.Fprintf(sb, "def randDuration (min x : Nat) : Nat := %s\n\n", p.leanExpr(ret.Results[0], map[string]string{pname: "min", "Int63()": "x"}))
 
+	// write deadline: replication.deadlineSize
+	df := p.findCalls("replication.deadlineSize", "durationFor")
+	if len(df) != 1 || len(df[0]) != 2 {
+		fmt.Fprintf(os.Stderr, "astfacts: expected exactly one durationFor(bandwidth, n) call in replication.deadlineSize, found %d\n", len(df))
+		os.Exit(2)
+	}
+	dsfd := p.funcs["replication.deadlineSize"]
+	sizeName := dsfd.Type.Params.List[0].Names[0].Name
+	dv := map[string]string{".bandwidth": "bw", sizeName: "size", ".hbTimeout": "hb"}
+	fmt.Fprintf(sb, "/-- replication.deadlineSize: the arguments handed to durationFor(bandwidth, n), as functions of the declared bandwidth and the payload size -/\n")
+	fmt.Fprintf(sb, "def deadlineArgs (bw size : Nat) : Nat × Nat := (%s, %s)\n\n", p.leanExpr(df[0][0], dv), p.leanExpr(df[0][1], dv))
+	// the floor: `if timeout < E { timeout = E }`
+	floor := ""
+	ast.Inspect(dsfd.Body, func(n ast.Node) bool {
+		if is, ok := n.(*ast.IfStmt); ok && is.Else == nil && len(is.Body.List) == 1 {
+			if be, ok := is.Cond.(*ast.BinaryExpr); ok && be.Op == token.LSS {
+				if as, ok := is.Body.List[0].(*ast.AssignStmt); ok && len(as.Lhs) == 1 && len(as.Rhs) == 1 &&
+					p.src(as.Lhs[0]) == p.src(be.X) && p.src(as.Rhs[0]) == p.src(be.Y) {
+					floor = p.leanExpr(be.Y, dv)
+				}
+			}
+		}
+		return true
+	})
+	if floor == "" {
+		fmt.Fprintln(os.Stderr, "astfacts: replication.deadlineSize has no `if timeout < E { timeout = E }` floor")
+		os.Exit(2)
+	}
+	fmt.Fprintf(sb, "/-- replication.deadlineSize: the minimum write timeout -/\ndef deadlineFloor (hb : Nat) : Nat := %s\n\n", floor)
+	fmt.Fprintf(sb, "/-- the whole body of replication.deadlineSize and of util.go durationFor, whitespace normalised -/\n")
+	fmt.Fprintf(sb, "def deadlineSizeSrc : String := %s\n", strconv.Quote(p.src(dsfd.Body)))
+	if p.funcs["durationFor"] == nil {
+		fmt.Fprintln(os.Stderr, "astfacts: durationFor not found")
+		os.Exit(2)
+	}
+	fmt.Fprintf(sb, "def durationForSrc : String := %s\n\n", strconv.Quote(p.src(p.funcs["durationFor"].Type)+" "+p.src(p.funcs["durationFor"].Body)))
+
 	fmt.Fprintf(sb, "/-- util.go constants -/\ndef failureWait : Nat := %s\n", p.leanExpr(p.constExpr("failureWait"), nil))
 	fmt.Fprintf(sb, "def maxFailureScale : Nat := %s\n\n", p.leanExpr(p.constExpr("maxFailureScale"), nil))
 
